@@ -180,8 +180,9 @@ PROFILES["C05"] = Profile(
         "nodes with ONE leading collection axis of a common length are included under the elementwise reading (the "
         "free indices of all nodes are aligned; result = stack of the per-element diagrams, collection axis first); "
         "other free-index patterns are excluded: the statement does not define them",
-        "a diagram on which add_edge/add_node raised or was interrupted is retired (builder failure atomicity is not "
-        "claimed by any property)",
+        "an add_edge that is rejected with TensorComputationError must leave the diagram as it was (the rejected edge is "
+        "not an edge of the diagram); a diagram on which a builder call was INTERRUPTED by an injected asynchronous "
+        "exception is retired (atomicity under asynchronous exceptions is not claimed)",
         "diagrams whose nodes ALL have a narrow dtype (int8: epsilon, delta(n,n), user int8; bool) are not compared when "
         "their L1 bound exceeds what the dtype holds (numpy keeps the narrow dtype; rank-0 nodes do not widen it because "
         "numpy 1.x promotes 0-d operands by value) - dtype overflow is an input matter; mixed narrow/wide diagrams ARE "
